@@ -28,6 +28,12 @@ func (d *Doc) NormalizeNS(r *rng.R) {
 			var decls []Decl
 			seen := map[string]bool{}
 			for _, dc := range n.Decls {
+				if dc.Prefix == "xml" && dc.URI == XMLNS && !seen["xml"] {
+					// the redundant but legal explicit declaration of the xml prefix
+					seen["xml"] = true
+					decls = append(decls, dc)
+					continue
+				}
 				if seen[dc.Prefix] || dc.Prefix == "xml" || dc.Prefix == "xmlns" || (dc.Prefix != "" && dc.URI == "") || dc.URI == XMLNS {
 					continue
 				}
